@@ -343,6 +343,7 @@ type verifDir struct {
 
 //verif:harness id=C18 tier=quick,thorough witness=end depth=2000 bounds="recursive types: a struct recursive through map values and slice elements (map[string]T, []T inside T), a slice type that is its own element type and a map type that is its own value type x options in {none, a TypeNameGenerator, component export, both}: generation terminates, every $ref names a component, and small values' encodings validate"
 func verifH_C18_recursive_types() {
+	verifMapOrder() // map iteration order is unspecified: ascending and descending key order
 	comps := openapi3.Schemas{}
 	var ref *openapi3.SchemaRef
 	var err error
@@ -459,6 +460,7 @@ type verifOptOuter struct {
 
 //verif:harness id=C18 tier=quick,thorough witness=end bounds="generator option sets: none / UseAllExportedFields / ThrowErrorOnCycle / a SchemaCustomizer that changes nothing / CreateComponentSchemas with each of its three flags / a TypeNameGenerator adding a prefix (with and without CreateComponentSchemas), on a struct with a nested struct by value, by pointer, in a slice and in a map, a self reference and an untagged field; the int32 leaf symbolic: generation succeeds (or reports the cycle when asked to), every $ref names a component, the encoding of a value validates"
 func verifH_C18_options() {
+	verifMapOrder() // map iteration order is unspecified: ascending and descending key order
 	comps := openapi3.Schemas{}
 	var opts []Option
 	sel := verifChoose("options", 10)
